@@ -128,17 +128,22 @@ def score (tbl : List ScoreRow) (esaaRow : ScoreRow) (d : AgeData)
       let kind := kindOf event'
       .points (points row kind (adjust kind k fN d.scale))
 
-/-- `athlon_performance_needed`: the exact inverse on the 0.01 grid.
-    field: least `k` whose points reach `s`; track: greatest such `k`. Search by bisection on the
-    monotone `points`. `hi` is a bound on the search range in hundredths. -/
-def neededAux (r : ScoreRow) (kind : EvKind) (s : Nat) (lo hi : Nat) : Nat :=
-  -- invariant for field: points lo < s ≤ points hi ; for track (decreasing): points lo ≥ s > points hi
+/-- `athlon_performance_needed` is the exact inverse on the 0.01 grid, found by bisection.
+    track (points fall as `k` grows): invariant `points lo ≥ s > points hi`, answer `lo` -/
+def neededTrack (r : ScoreRow) (s : Nat) (lo hi : Nat) : Nat :=
   if _h : lo + 1 < hi then
     let mid := (lo + hi) / 2
-    match kind with
-    | .track => if s ≤ points r kind mid then neededAux r kind s mid hi else neededAux r kind s lo mid
-    | _ => if s ≤ points r kind mid then neededAux r kind s lo mid else neededAux r kind s mid hi
-  else (match kind with | .track => lo | _ => hi)
+    if s ≤ points r .track mid then neededTrack r s mid hi else neededTrack r s lo mid
+  else lo
+termination_by hi - lo
+decreasing_by all_goals omega
+
+/-- field (points rise with `k`): invariant `points lo < s ≤ points hi`, answer `hi` -/
+def neededField (r : ScoreRow) (kind : EvKind) (s : Nat) (lo hi : Nat) : Nat :=
+  if _h : lo + 1 < hi then
+    let mid := (lo + hi) / 2
+    if s ≤ points r kind mid then neededField r kind s lo mid else neededField r kind s mid hi
+  else hi
 termination_by hi - lo
 decreasing_by all_goals omega
 
@@ -169,10 +174,10 @@ def needed (tbl : List ScoreRow) (gender event : String) (s : Int) : Needed :=
     if s = 0 then .mark (zeroK row kind) else
     match kind with
     | .track =>
-      if s ≤ points row kind 0 then .mark (neededAux row kind s 0 (zeroK row kind)) else .unreachable
+      if s ≤ points row kind 0 then .mark (neededTrack row s 0 (zeroK row kind)) else .unreachable
     | _ =>
       let lo := zeroK row kind - 1
       let hi := fieldHi row kind s 64 (zeroK row kind + 1)
-      if s ≤ points row kind hi then .mark (neededAux row kind s lo hi) else .unreachable
+      if s ≤ points row kind hi then .mark (neededField row kind s lo hi) else .unreachable
 
 end AthlibVerif.Athlon
